@@ -62,7 +62,7 @@ Print Assumptions C06_domain_never_a_region.
    (injection-free) circuit emits for the decoded message; only far_to_near_map and what the message
    itself means (CloseCircuit / AgentMovementComplete) change *)
 Theorem C06_viewer_to_sim : forall decode ss p data src S payload m i s k r c,
-  f2n_get (p_f2n p) (ip_addr src) = None -> fst src = p_client p ->
+  f2n_get (p_f2n p) (ip_addr src) = None -> fst src = p_client p -> S <> src ->
   parse_socks data = POk (ip_addr S) payload ->
   decode payload = Some m -> p_sess p = Some i -> nth_error ss i = Some s ->
   name_eqb (mi_name m) n_UseCircuitCode = false ->
@@ -117,7 +117,7 @@ Print Assumptions C06_invariant_step.
 (* the UseCircuitCode handshake claims the pending session (or uses the claimed one), is forwarded to
    the simulator exactly once, and leaves a state in which both directions above are enabled *)
 Theorem C06_circuit_handshake : forall decode ss p data src S payload m i ss1 s,
-  f2n_get (p_f2n p) (ip_addr src) = None -> fst src = p_client p ->
+  f2n_get (p_f2n p) (ip_addr src) = None -> fst src = p_client p -> S <> src ->
   parse_socks data = POk (ip_addr S) payload ->
   decode payload = Some m -> name_eqb (mi_name m) n_UseCircuitCode = true ->
   session_ready ss p m i ss1 -> nth_error ss1 i = Some s ->
@@ -144,7 +144,7 @@ Print Assumptions C06_at_most_once.
 Theorem C06_two_regions_out : forall decode ss p data src payload m i s k r c,
   NoDup (map r_addr (s_regions s)) ->
   nth_error (s_regions s) k = Some r -> r_circ r = Some c ->
-  f2n_get (p_f2n p) (ip_addr src) = None -> fst src = p_client p ->
+  f2n_get (p_f2n p) (ip_addr src) = None -> fst src = p_client p -> r_addr r <> src ->
   parse_socks data = POk (ip_addr (r_addr r)) payload ->
   decode payload = Some m -> p_sess p = Some i -> nth_error ss i = Some s ->
   name_eqb (mi_name m) n_UseCircuitCode = false -> body_fine m -> mi_consumed m = false ->
@@ -186,9 +186,10 @@ Print Assumptions C06_two_sessions.
 
 (* ---------------- discarded datagrams ---------------- *)
 
-(* bad framing, unknown host, pre-session, unclaimable session, no circuit, undecodable, banned,
-   unreadable body: no send, no session changes, the association keeps its session reference; the only
-   trace is a far_to_near entry for the parsed SOCKS destination of a well-framed viewer datagram *)
+(* bad framing, addressed to its own sender, unknown host, pre-session, unclaimable session, no circuit,
+   undecodable, banned, unreadable body: no send, no session changes, the association keeps its session
+   reference; the only trace is a far_to_near entry for the parsed SOCKS destination of a well-framed
+   client datagram, and that destination is never the sender itself (/repo dc82116) *)
 Theorem C06_discard_step : forall decode ss p data src,
   let res := recv decode ss p data src in
   is_discard (rs_outcome res) = true ->
@@ -196,34 +197,55 @@ Theorem C06_discard_step : forall decode ss p data src,
   p_sess (rs_proto res) = p_sess p /\ p_client (rs_proto res) = p_client p /\
   (p_f2n (rs_proto res) = p_f2n p \/
    exists far d, parse_socks data = POk far d /\ f2n_get (p_f2n p) (ip_addr src) = None /\
+                 far <> ip_addr src /\ fst src = p_client p /\
                  p_f2n (rs_proto res) = f2n_set (p_f2n p) far src).
 Proof. exact discard_step. Qed.
 Print Assumptions C06_discard_step.
 
-(* FULL STATEMENT (false of the code as it is, see C06_discard_isolated_refuted): for every history
-   h1 ++ [d] ++ h2 in which d is discarded where it stands, deleting d changes no other delivery and not
-   the final session state.
-   PROVED: the same under [dest_harmless]: the parsed SOCKS destination of d is not an address on the
-   client's IP from which a later datagram of h2 arrives (finding #20 = destination is the viewer itself). *)
+(* FULL STATEMENT: for every history h1 ++ [d] ++ h2 in which d is discarded where it stands, deleting d
+   changes no other delivery and not the final session state.
+   PROVED (1) for every history in which all datagrams from the client's IP come from one address - the
+   normal situation of a UDP association - with no condition on d whatsoever: *)
 Theorem C06_discard_isolated : forall decode ss p h1 data src h2,
   Inv ss p ->
   let '(ss1, p1, out1) := run decode ss p h1 in
   is_discard (rs_outcome (recv decode ss1 p1 data src)) = true ->
-  dest_harmless (p_client p) data h2 ->
+  one_viewer_address (p_client p) ((data, src) :: h2) ->
+  let '(ssA, pA, outA) := run decode ss p (h1 ++ (data, src) :: h2) in
+  let '(ssB, pB, outB) := run decode ss p (h1 ++ h2) in
+  exists tail, outA = out1 ++ [] :: tail /\ outB = out1 ++ tail /\ ssA = ssB /\ p_sess pA = p_sess pB.
+Proof. exact discard_isolated_one_viewer. Qed.
+Print Assumptions C06_discard_isolated.
+
+(* PROVED (2) in general under the weakest side condition the repaired code admits: IF d was sent from
+   the client's IP to a destination different from its sender, THEN no later datagram arrives from that
+   destination on the client's IP.  (Before /repo dc82116 the condition was needed for destination =
+   sender as well - finding #20.) *)
+Theorem C06_discard_isolated_general : forall decode ss p h1 data src h2,
+  Inv ss p ->
+  let '(ss1, p1, out1) := run decode ss p h1 in
+  is_discard (rs_outcome (recv decode ss1 p1 data src)) = true ->
+  dest_harmless (p_client p) data src h2 ->
   let '(ssA, pA, outA) := run decode ss p (h1 ++ (data, src) :: h2) in
   let '(ssB, pB, outB) := run decode ss p (h1 ++ h2) in
   exists tail, outA = out1 ++ [] :: tail /\ outB = out1 ++ tail /\ ssA = ssB /\ p_sess pA = p_sess pB.
 Proof. exact discard_isolated. Qed.
-Print Assumptions C06_discard_isolated.
+Print Assumptions C06_discard_isolated_general.
 
-Theorem C06_discard_isolated_refuted :
+Theorem C06_one_viewer_harmless : forall client data src h2,
+  one_viewer_address client ((data, src) :: h2) -> dest_harmless client data src h2.
+Proof. exact one_viewer_harmless. Qed.
+Print Assumptions C06_one_viewer_harmless.
+
+(* why the residual condition cannot be dropped: with two local ports the full statement is false *)
+Theorem C06_discard_isolated_two_ports_refuted :
   exists decode ss p h1 data src h2,
     Inv ss p /\
     is_discard (rs_outcome (let '(ss1, p1, _) := run decode ss p h1 in recv decode ss1 p1 data src)) = true /\
     snd (run decode ss p (h1 ++ (data, src) :: h2)) = [[([1], toy_S)]; []; []] /\
     snd (run decode ss p (h1 ++ h2)) = [[([1], toy_S)]; [([9], toy_S)]].
-Proof. exact discard_isolated_refuted. Qed.
-Print Assumptions C06_discard_isolated_refuted.
+Proof. exact discard_isolated_two_ports_refuted. Qed.
+Print Assumptions C06_discard_isolated_two_ports_refuted.
 
 (* ---------------- non-vacuity: concrete instances meeting the hypotheses ---------------- *)
 
@@ -247,26 +269,39 @@ Example C06_ex_hypotheses :
     name_eqb (mi_name m) n_UseCircuitCode = false /\
     find_region (s_regions s) (ip_addr toy_S) = Some (k, rg, c) /\ mi_body_ok m = true /\ mi_consumed m = false /\
     f2n_get (p_f2n p) (ip_addr toy_S) = Some toy_V /\ validate_udp_msg (mi_name m) = Some true /\
-    c_near c = toy_V /\ NoDup (map r_addr (s_regions s)).
+    c_near c = toy_V /\ NoDup (map r_addr (s_regions s)) /\ toy_S <> toy_V.
 Proof.
   vm_compute. do 5 eexists. repeat split; try reflexivity.
-  repeat constructor; cbn; intuition congruence.
+  - repeat constructor; cbn; intuition congruence.
+  - discriminate.
 Qed.
 
+(* regression on the witness of finding #20: the self-addressed datagram is discarded without a trace and
+   the next viewer datagram is forwarded (before /repo dc82116: it was not) *)
+Example C06_ex_defect20_regression :
+  let ss := toy_sessions in let p := toy_proto in
+  let h1 := [(wrap toy_S [1], toy_V)] in let h2 := [(wrap toy_S [9], toy_V)] in
+  is_discard (rs_outcome (let '(ss1, p1, _) := run toy_decode ss p h1 in
+                          recv toy_decode ss1 p1 (wrap toy_V [9]) toy_V)) = true /\
+  snd (run toy_decode ss p (h1 ++ (wrap toy_V [9], toy_V) :: h2)) = [[([1], toy_S)]; []; [([9], toy_S)]] /\
+  snd (run toy_decode ss p (h1 ++ h2)) = [[([1], toy_S)]; [([9], toy_S)]] /\
+  p_f2n (snd (fst (run toy_decode ss p (h1 ++ [(wrap toy_V [9], toy_V)])))) = p_f2n (snd (fst (run toy_decode ss p h1))).
+Proof. exact discard_isolated_defect20_regression. Qed.
+
 (* hypotheses of C06_discard_isolated: an established circuit, then a mis-addressed datagram (no circuit
-   for 10.7.7.7:1) in the middle of valid traffic *)
+   for 10.7.7.7:1) in the middle of valid traffic, all client datagrams from the one viewer address *)
 Example C06_ex_discard_hypotheses :
   Inv toy_sessions toy_proto /\
   is_discard (rs_outcome (let '(ss1, p1, _) := run toy_decode toy_sessions toy_proto [(wrap toy_S [1], toy_V)] in
                           recv toy_decode ss1 p1 (wrap (168232711, 1) [9]) toy_V)) = true /\
-  dest_harmless (p_client toy_proto) (wrap (168232711, 1) [9]) [(wrap toy_S [9], toy_V); ([7], toy_S)] /\
+  one_viewer_address (p_client toy_proto)
+    ((wrap (168232711, 1) [9], toy_V) :: [(wrap toy_S [9], toy_V); ([7], toy_S)]) /\
   snd (run toy_decode toy_sessions toy_proto
          ([(wrap toy_S [1], toy_V)] ++ (wrap (168232711, 1) [9], toy_V) :: [(wrap toy_S [9], toy_V); ([7], toy_S)]))
   = [[([1], toy_S)]; []; [([9], toy_S)]; [(wrap toy_S [7], toy_V)]].
 Proof.
   split; [exact toy_Inv|]. split; [vm_compute; reflexivity|]. split; [|vm_compute; reflexivity].
-  intros far d H e He Ha. vm_compute in H. injection H as <- <-.
-  destruct He as [<-|[<-|[]]]; vm_compute in Ha; discriminate.
+  exists toy_V. intros e [<-|[<-|[<-|[]]]] H; try reflexivity. vm_compute in H. discriminate.
 Qed.
 
 (* the ban list is not empty, and bans only inbound traffic *)
